@@ -42,7 +42,9 @@ RULE = ("two generators. (1) general: entry sequences of length 0-14 over <= 3 b
         "11-110 entries (thorough: up to 300) that all want the same first-choice name: attempt numbers with 2 and 3 "
         "digits. Targets also differ only in the 5th byte (9th / 10th hex digit: the edge of the prefix); perms up "
         "to 2^70; an id equal to the hash of the REPAIRED list's manifest (check()'s 'raw manifest not needed' "
-        "clause). Call shapes (field `shape`, invisible to the model): id / raw_manifest omitted when default vs "
+        "clause). About one base name in ten is a string / bytes constant harvested from the source of the repository "
+        "under test (gitobj_common.source_tokens) or has one spliced in ('/' removed), on the clash paths too. "
+        "Call shapes (field `shape`, invisible to the model): id / raw_manifest omitted when default vs "
         "passed explicitly, entries as a tuple subclass, equal entries as ONE shared DirectoryEntry object vs "
         "distinct equal objects, perms given as DentryPerms / str / float / bool, targets of a bytes subclass. "
         "Sequences: every sixth case first repairs the same entries with OTHER id / raw_manifest (field `prime`), "
@@ -158,6 +160,27 @@ SPECIAL = [b"%", b"%%", b"%s", b"%d", b"%(x)s", b"%(", b"100%", b"50%_off", b"%5
 _NOSLASH = [c for c in range(1, 256) if c != 0x2f]
 
 
+def _tok(rng, nm):
+    """about one name in ten comes from the dictionary of string / bytes constants harvested from the source of the
+    repository under test (gitobj_common.source_tokens): a token alone or spliced into the usual name, '/' removed.
+    A special case keyed on a literal that a change introduces is then exercised on every path, clash paths included."""
+    if rng.random() >= 0.10:
+        return nm
+    try:
+        from .gitobj_common import splice_token
+        return splice_token(rng, nm, "bytes").replace(b"/", b"")
+    except Exception:
+        return nm
+
+
+def is_token_name(name):
+    try:
+        from .gitobj_common import source_tokens
+        return any(len(t.replace(b"/", b"")) >= 2 and t.replace(b"/", b"") in name for t in source_tokens("bytes"))
+    except Exception:
+        return False
+
+
 def special_name(rng):
     r = rng.random()
     if r < 0.5:
@@ -240,7 +263,7 @@ def _clash_group(rng, nm, tg, mult, blockers):
 
 def gen_clash_case(rng):
     """names from the special alphabet on the paths where the first-choice name is taken and numbered names are probed"""
-    nm = special_name(rng) if rng.random() < 0.9 else rng.choice([b"a", b"ab", b""])
+    nm = _tok(rng, special_name(rng) if rng.random() < 0.9 else rng.choice([b"a", b"ab", b""]))
     tg = bytes(rng.randrange(256) for _ in range(20)) if rng.random() < 0.85 else bytes(rng.randrange(256) for _ in range(rng.choice([0, 1, 4, 5])))
     mult = rng.choice([2, 3, 3, 4, 4, 5])
     blockers = rng.choice([0, 0, 1, 1, 2, 3, 5])
@@ -253,7 +276,7 @@ def gen_clash_case(rng):
         tg2 = rng.choice([tg, b"\x10", b"\x01", bytes(rng.randrange(256) for _ in range(20))])
         es += _clash_group(rng, nm2, tg2, rng.choice([2, 2, 3]), rng.choice([0, 1, 2]))
     elif r < 0.5:
-        es += _clash_group(rng, special_name(rng), tg, rng.choice([2, 3]), rng.choice([0, 1, 2]))
+        es += _clash_group(rng, _tok(rng, special_name(rng)), tg, rng.choice([2, 3]), rng.choice([0, 1, 2]))
     r = rng.random()
     if r < 0.5:
         rng.shuffle(es)
@@ -287,7 +310,7 @@ def _target(rng, pool):
 def gen_case(rng):
     plain = [b"a", b"b", b"ab", b"a_", b"a_1", b"", b"a.b", b"\xff", b"a\x00", b"0"]
     pool_names = plain if rng.random() < 0.6 else plain + [special_name(rng) for _ in range(6)]
-    bases = list(dict.fromkeys(rng.sample(pool_names, rng.choice([1, 1, 2, 2, 3]))))
+    bases = list(dict.fromkeys(_tok(rng, b) for b in rng.sample(pool_names, rng.choice([1, 1, 2, 2, 3]))))
     n = rng.choice([0, 1, 2, 2, 3, 3, 3, 4, 4, 5, 6, 8, 10, 12])
     mult = {b: 0 for b in bases}
     pool = []
@@ -350,7 +373,7 @@ def _shape(rng):
 def _many(rng, n):
     """one name carried by n entries that all want the same first-choice name (plus a few other entries): the
     attempt counter gets 2 and 3 digits"""
-    nm = rng.choice([b"a", b"", b"%d", b"x_1", special_name(rng)])
+    nm = _tok(rng, rng.choice([b"a", b"", b"%d", b"x_1", special_name(rng)]))
     tg = bytes(rng.randrange(256) for _ in range(20))
     t0 = rng.choice(TYPES)
     es = []
@@ -492,6 +515,13 @@ def classify(c):
         ks.append("raw-given")
         if c["raw"] == "":
             ks.append("raw-empty-bytes")
+    tn = {n for n in set(ns) if is_token_name(n)}
+    if tn:
+        ks.append("source-token-in-name")
+        if any(ns.count(n) > 1 for n in tn):
+            ks.append("source-token-in-repeated-name")
+        if any(k >= 1 and n in tn for n, k in attempt_depths(es)):
+            ks.append("source-token-name:attempt>=1")
     for sh in c.get("shape", []):
         ks.append("shape:" + sh)
     if c.get("prime"):
